@@ -373,14 +373,14 @@ Proof.
       try (destruct (tbl_matrix rest) as [es|] eqn:E; [|discriminate H]; injection H as <-;
            destruct (IH rest es ltac:(lia) E) as [Hkeys Harr];
            split; [cbn [map fst]; rewrite Hkeys; reflexivity|];
-           intros n Hwf; unfold table_wf in Hwf; inversion Hwf as [|x y Hr Hrest]; subst;
+           intros n Hwf; unfold table_wf in Hwf; pose proof (Forall_inv Hwf) as Hr; pose proof (Forall_inv_tail Hwf) as Hrest;
            constructor; [eexists; split; [reflexivity|]; rewrite map_length; exact Hr|apply Harr; exact Hrest]).
     destruct rest as [|r2 rest']; [discriminate H|].
     cbn [length] in Hk.
     destruct (tbl_matrix rest') as [es|] eqn:E; [|discriminate H]. injection H as <-.
     destruct (IH rest' es ltac:(lia) E) as [Hkeys Harr].
     split; [cbn [map fst]; rewrite Hkeys; reflexivity|].
-    intros n Hwf. unfold table_wf in Hwf. inversion Hwf as [|x y Hr Hrest]; subst. inversion Hrest as [|x2 y2 Hr2 Hrest']; subst.
+    intros n Hwf. unfold table_wf in Hwf. pose proof (Forall_inv Hwf) as Hr. pose proof (Forall_inv_tail (Forall_inv_tail Hwf)) as Hrest'.
     constructor; [eexists; split; [reflexivity|]; rewrite zip_ts_length; exact Hr|apply Harr; exact Hrest'].
 Qed.
 
@@ -390,13 +390,6 @@ Lemma tbl_matrix_shape : forall t d, tbl_matrix t = Some d ->
 Proof. intros t d. apply (tbl_matrix_shape_len (length t)). lia. Qed.
 
 (* a table whose timestamp rows come in pairs has a matrix document *)
-Fixpoint ts_paired (ts : list mtype) : bool :=
-  match ts with
-  | [] => true
-  | MTs :: r => match r with MTs :: r' => ts_paired r' | _ => false end
-  | _ :: r => ts_paired r
-  end.
-
 Lemma ts_paired_app_len : forall k a b, (length a <= k)%nat -> ts_paired a = true -> ts_paired b = true ->
   ts_paired (a ++ b) = true.
 Proof.
@@ -518,8 +511,102 @@ Proof.
   - intros v y. apply leaf_mtype_tag.
 Qed.
 
+(* ------------------------------------------------------------------ the statements of Props/C02.v *)
+Section C02.
+Variable deflate : bytes -> bytes.
+Variable inflate : bytes -> option bytes.
+Hypothesis inflate_deflate : forall p, inflate (deflate p) = Some p.
+
+Theorem c02_keys_full_paths : forall meta ds cs e,
+  read_chunks inflate meta ds = (cs, e) ->
+  Forall (fun c => map r_key (chunk_table c) = map join_dot (lpaths_doc [] (ck_ref c)) /\
+                   map r_type (chunk_table c) = map fst (flatten_doc (ck_ref c)) /\
+                   ts_paired (map r_type (chunk_table c)) = true /\
+                   table_wf (Z.to_nat (ck_npoints c)) (chunk_table c) /\ 1 <= ck_npoints c) cs.
+Proof.
+  intros meta ds cs e H. unfold read_chunks in H.
+  pose proof (read_keys_full_paths inflate None meta ds cs e H) as HF.
+  revert HF. apply Forall_impl. intros c (Hk & Ht & Hw & Hn).
+  split; [rewrite lpaths_doc_eq; exact Hk|]. split; [exact Ht|].
+  split; [rewrite Ht; apply flatten_doc_paired|]. split; assumption.
+Qed.
+
+Theorem c02_keys_unique : forall meta ds cs e c,
+  read_chunks inflate meta ds = (cs, e) -> In c cs ->
+  doc_keys_good (ck_ref c) = true -> doc_arrays_small (ck_ref c) = true ->
+  NoDup (map r_key (chunk_table c)).
+Proof. intros meta ds cs e c H. unfold read_chunks in H. exact (read_keys_unique inflate None meta ds cs e c H). Qed.
+
+Theorem c02_table : forall k n docs nows,
+  compressing k = true -> 1 <= n < 2 ^ 31 ->
+  (docs <> [] /\ length nows = length docs /\ Forall (fun t => in_i64 t = true) nows /\
+   same_schema docs /\
+   Forall (fun d => doc_ok d = true /\ doc_leaves_ok d = true /\ Wf.small (enc_doc d)) docs /\
+   (N.of_nat (length (flatten_doc (hd [] docs))) < 2 ^ 32)%N) ->
+  fits k n docs ->
+  Forall (fun d => doc_has_ts_seconds d = false) docs ->
+  exists cs groups,
+    read_chunks inflate None (emitted (snd (fst (emit deflate k n docs nows)))) = (cs, None) /\
+    concat groups = docs /\
+    Forall2 (fun c g => g <> [] /\ ck_ref c = hd [] g /\ ck_npoints c = Z.of_nat (length g) /\
+                        map r_key (chunk_table c) = spec_keys (hd [] g) /\
+                        chunk_table c = doc_table (hd [] g) g) cs groups.
+Proof.
+  intros k n docs nows Hk Hn Hin Hfits Hts.
+  destruct (emit_tables deflate inflate inflate_deflate k n docs nows Hk Hn Hin Hfits Hts) as (cs & groups & Hcs & Hcat & Htab).
+  exists cs, groups. split; [exact Hcs|]. split; [exact Hcat|].
+  pose proof (c02_keys_full_paths None _ _ _ Hcs) as HF.
+  clear Hcs Hcat. induction Htab as [|c g cs gs Hcg Htab IH]; [constructor|].
+  inversion HF as [|c' cs' Hc HF']; subst.
+  constructor; [|apply IH; exact HF'].
+  destruct Hcg as (Hne & Hr & Hnp & Ht). destruct Hc as (Hkeys & _).
+  split; [exact Hne|]. split; [exact Hr|]. split; [exact Hnp|]. split; [|exact Ht].
+  rewrite Hkeys, Hr. reflexivity.
+Qed.
+
+End C02.
+
+(* non-vacuity: two samples of a depth-4 document with sibling sub-documents, an
+   array of documents and a timestamp (zero seconds) satisfy every hypothesis, and
+   their keys are the expected dotted paths *)
+Definition ex_doc (v : Z) (b : bool) : doc :=
+  [([97]%N, VDoc [([98]%N, VDoc [([115; 49]%N, VDoc [([120]%N, VInt32 v)]);
+                                 ([115; 50]%N, VDoc [([120]%N, VInt64 (v + 1)); ([121]%N, VBool b)])])]);
+   ([114]%N, VArr [VDoc [([112]%N, VDouble v); ([113]%N, VDateTime (v * 1000)); ([122]%N, VString [104]%N)];
+                   VDoc [([112]%N, VInt64 (- v))]]);
+   ([116]%N, VTimestamp 0 (v + 5))].
+
+Theorem c02_example :
+  let docs := [ex_doc 1 true; ex_doc 7 false] in
+  (docs <> [] /\ length [0; 0] = length docs /\ Forall (fun t => in_i64 t = true) [0; 0] /\
+   same_schema docs /\
+   Forall (fun d => doc_ok d = true /\ doc_leaves_ok d = true /\ Wf.small (enc_doc d)) docs /\
+   (N.of_nat (length (flatten_doc (hd [] docs))) < 2 ^ 32)%N) /\
+  Forall (fun d => doc_has_ts_seconds d = false) docs /\
+  doc_keys_good (ex_doc 1 true) = true /\ doc_arrays_small (ex_doc 1 true) = true /\
+  spec_keys (ex_doc 1 true) =
+    [[97; 46; 98; 46; 115; 49; 46; 120]; [97; 46; 98; 46; 115; 50; 46; 120]; [97; 46; 98; 46; 115; 50; 46; 121];
+     [114; 46; 48; 46; 112]; [114; 46; 48; 46; 113]; [114; 46; 49; 46; 112]; [116]; [116; 46; 105; 110; 99]]%N /\
+  map r_col (doc_table (ex_doc 1 true) docs) = [[1; 7]; [2; 8]; [1; 0]; [1; 7]; [1000; 7000]; [-1; -7]; [0; 0]; [6; 12]].
+Proof.
+  intro docs. subst docs. split; [|split; [|split; [|split; [|split]]]].
+  - split; [discriminate|]. split; [reflexivity|]. split; [repeat constructor|].
+    split. { intros a b [<-|[<-|[]]] [<-|[<-|[]]]; reflexivity. }
+    split. { repeat constructor; try (unfold Wf.small; vm_compute; reflexivity). }
+    vm_compute. reflexivity.
+  - repeat constructor.
+  - vm_compute. reflexivity.
+  - vm_compute. reflexivity.
+  - vm_compute. reflexivity.
+  - vm_compute. reflexivity.
+Qed.
+
 Print Assumptions read_keys_full_paths.
 Print Assumptions read_keys_unique.
 Print Assumptions emit_tables.
 Print Assumptions views_project.
 Print Assumptions views_types.
+Print Assumptions c02_keys_full_paths.
+Print Assumptions c02_keys_unique.
+Print Assumptions c02_table.
+Print Assumptions c02_example.
